@@ -270,6 +270,15 @@ def run_cases(prop: Any, rec: Recorder, rng: Any, n: int, deadline: float) -> No
             rec.count("generator_rejects")
             continue
         run_one(prop, rec, case)
+        if _ABORT.get("timeouts", 0) >= 2:
+            # two cases of this shard already ran into the 45 s wall-clock watchdog: do not spend the whole budget
+            # waiting; what was observed so far is reported (the watchdog firings themselves stay inconclusive)
+            rec.count("shard_stopped_early(after 2 wall-clock watchdog firings)")
+            break
+        if _ABORT.get("nonterminating", 0) >= 3:
+            # every such case costs seconds of CPU; the verdict (violation) is settled, the shard need not go on
+            rec.count("shard_stopped_early(after 3 non-termination verdicts)")
+            break
 
 
 class CaseTimeout(BaseException):
@@ -337,6 +346,7 @@ def run_one(prop: Any, rec: Recorder, case: Any) -> None:
 
     rec.begin(case)
     _ABORT["rec"], _ABORT["fired"] = rec, 0
+    _ABORT["last_progress"] = time.monotonic()
     signal.signal(signal.SIGALRM, _alarm)
     signal.alarm(CASE_WATCHDOG_S)
     signal.signal(signal.SIGVTALRM, _cpu_alarm)
@@ -348,17 +358,20 @@ def run_one(prop: Any, rec: Recorder, case: Any) -> None:
             # a synchronous loop in the code under observation that does not end: decided on CPU time consumed
             # inside that code (not on the wall clock), so machine load cannot produce it
             rec.violation("observed-code-does-not-terminate", {"cpu_seconds_in_one_case": CASE_CPU_BUDGET_S, **e.where})
+            _ABORT["nonterminating"] = _ABORT.get("nonterminating", 0) + 1
         else:
             rec.harness_problem(f"case used {CASE_CPU_BUDGET_S} s of CPU outside the observed code: {e.where}")
     except Livelock as e:
         # logical-step verdict: the code under observation spins at one virtual instant
         rec.violation("livelock-in-observed-code", {"detail": str(e)})
+        _ABORT["nonterminating"] = _ABORT.get("nonterminating", 0) + 1
     except HarnessError as e:
         rec.harness_problem(f"HarnessError: {e}")
     except AttributedError as e:
         rec.violation("exception-escaped", {"where": e.where, **exc_info(e.exc)})
     except CaseTimeout as e:
         rec.harness_problem(f"case exceeded its wall-clock watchdog: {e}")
+        _ABORT["timeouts"] = _ABORT.get("timeouts", 0) + 1
     except Exception as e:  # harness bug, or an exception escaping the repo's code
         if raised_in_repo(e):
             # DESIGN 2.5: an undocumented exception escaping the observed code on an
@@ -370,6 +383,7 @@ def run_one(prop: Any, rec: Recorder, case: Any) -> None:
     finally:
         signal.alarm(0)
         signal.setitimer(signal.ITIMER_VIRTUAL, 0)
+        _ABORT["last_progress"] = time.monotonic()
     rec.end()
 
 
